@@ -291,7 +291,7 @@ func compareState(w *AdapterWorld, r *RefWorld, u *Universe, h *History, phase s
 			ctx := contextFor(h, w, u, []ethcmn.Address{a}, "plain")
 			trait := "record-differs-from-adapter-balance"
 			if raw.Cmp(got) > 0 && (h.DestroyedThisTx[a] || h.DestroyedSameBlock[a] || h.DestroyedEarlier[a]) {
-				trait = "beneficiary-credited-contract-balance-kept"
+				trait = "destroyed-account-balance-record-kept"
 			}
 			return &Divergence{Rule: "native-balance-record", Context: ctx, Trait: trait,
 				What: fmt.Sprintf("native record b_%s_OLT=%v but adapter GetBalance=%v (reference %v) after %s", a.Hex(), raw, got, r.DB.GetBalance(a), phase)}
